@@ -353,6 +353,9 @@ structure ExtCfg where
   frobC2 : List El
   /-- `mul_base_field_by_nonresidue_in_place(e_i)` on the standard basis of the base field -/
   nrMulBasis : List El
+  /-- `mul_base_field_by_frob_coeff(e_i, power)` for `power < degree`, on the standard basis of the base
+      field; cubic layers: the pair `(c1, c2)` flattened as `[c1(e_0), c2(e_0), c1(e_1), …]` -/
+  frobMulBasis : List (List El) := []
   -- `Fp3Config` only
   twoAdicity : Nat := 0
   traceMinusOneDivTwo : Nat := 0
@@ -464,6 +467,19 @@ def zipAll {α β : Type} (f : α → β → Bool) : List α → List β → Boo
 /-- cubic layers: `C2[i] = C1[i]²` (`= b^(2(p^i-1)/3)`) -/
 def checkFrobeniusC2 (c : ExtCfg) : Bool :=
   if c.k == 3 then zipAll (fun x y => y == c.frobTower.sq x) c.frobC1 c.frobC2 else c.frobC2.isEmpty
+
+/-- one row of the expected `mul_base_field_by_frob_coeff` table: every basis vector times the
+    (embedded) table entries of that power -/
+def frobHookRow (c : ExtCfg) (c1 c2 : El) : List El :=
+  let t := c.baseTower
+  if c.k == 3 then
+    (t.basis.map (fun e => [t.mul e (embed t c1), t.mul e (embed t c2)])).flatten
+  else t.basis.map (fun e => t.mul e (embed t c1))
+
+/-- the configuration's `mul_base_field_by_frob_coeff` hook multiplies by `FROBENIUS_COEFF_C1[power]`
+    (and `_C2[power]` for cubic layers) for every `power < degree` (checked on a basis) -/
+def checkFrobMulBasis (c : ExtCfg) : Bool :=
+  c.frobMulBasis == List.zipWith (frobHookRow c) c.frobC1 (if c.k == 3 then c.frobC2 else c.frobC1)
 
 /-- `Fp3Config::TWO_ADICITY`, `TRACE_MINUS_ONE_DIV_TWO`: `p³ - 1 = 2^s·t`, `t` odd -/
 def checkFp3TwoAdicity (c : ExtCfg) : Bool :=
@@ -646,6 +662,10 @@ def checkGlvDecompRows (c : GlvCfg) : Bool :=
     uses `N⁻¹ = (1/r)·adj N`) -/
 def checkGlvDet (c : GlvCfg) : Bool :=
   c.n 0 * c.n 3 - c.n 1 * c.n 2 == (c.curve.r : Int)
+
+/-- the decomposition basis is short ("LLL-reduced"): every entry satisfies `n² ≤ 4r` -/
+def checkGlvDecompShort (c : GlvCfg) : Bool :=
+  allB (fun (e : Bool × Nat) => decide (e.2 * e.2 ≤ 4 * c.curve.r)) c.decomp
 
 /-! ### SWU / WB -/
 
